@@ -178,8 +178,14 @@ func discharge(obls []*Obligation, dir string, timeoutS int, workers int, confir
 
 // ok reports whether the obligation is discharged (or the cover is reachable).
 func (o *Obligation) ok() bool {
+	if o.Kind == "aux" {
+		return true // auxiliary query: its answer is used, never judged
+	}
 	if o.Cover {
 		return o.Status == "sat"
+	}
+	if o.Covered != "" && o.Status == "sat" {
+		return true // see Covered: not a violation of the property (submission dry-run)
 	}
 	return o.Status == "unsat"
 }
